@@ -44,16 +44,42 @@ MODELLED_NOT_VERIFIED = [
     "C06: credibility scores are exact products in the model and float log-sums in the code (compared to 1e-9; the maximiser's "
     "topology is compared only when the exact maximiser is unique by a 1e-9 margin)",
 ]
-EXPLANATION = ("Theorems (Props/C06.lean) about the definitions drv_c06 runs: aligned + queries_defined (every array reachable over the whole "
-               "op alphabet keeps its four lists and the distribution's tree count in step), insert_any_index, add_perm (any order of "
-               "one-at-a-time accession: same counts / weights / per-split multisets of lengths and ages, rows up to order), "
-               "merge_any_partition (sub-collections incl. empty ones, any arrival order: never fails, aligned, observable of the serial run), "
-               "update_never_fails, compatible_history (no operation of any compatible history is rejected; every array equals a serial "
-               "accession), sumtrees_schedule_independent (every file->worker assignment incl. idle workers x every arrival order = serial), "
-               "freq_of_obs, scores_of_obs, mcc_scores_of_obs, mcc_topologies_of_obs (summaries are functions of the observable). "
-               "consensus_of_obs_partial: proved for the set of candidate splits handed to the tree builder, not for their order.")
+EXPLANATION = ("Theorems (Props/C06.lean) about the definitions drv_c06 runs: aligned (four lists always in step, also after the one "
+               "rejection that follows a mutation - add_tree's length assert; in step with the distribution's count while that assert "
+               "never fired) + queries_defined, insert_any_index (same row, Python insert position, rows equal up to order), add_perm, "
+               "merge_any_partition (sub-collections incl. empty ones, any arrival order: never fails, aligned, observable of the serial "
+               "run), update_ok_iff (update/extend/+= is rejected exactly when both sides hold trees and differ in rooting or a setting), "
+               "history_holds_its_trees (ghost semantics: after any compatible history over the whole op alphabet, nested merges and "
+               "self-merges included, array i holds exactly the trees the history put there and equals their serial accession; nothing "
+               "is rejected), histories_agree (two compatible histories leaving the same trees up to order in two arrays leave the same "
+               "observable and rows), sumtrees_schedule_independent, freq_of_obs, scores_of_obs, mcc_scores_of_obs, mcc_topologies_of_obs. "
+               "consensus_of_obs_partial: proved for the set of candidate splits handed to the tree builder, not for their order; the "
+               "order (insDesc tie-break) and the first-strict-maximum index mccIndex are tied to the code by the correspondence "
+               "(greedy consensus at min_freq 1/4 on tie-rich samples; index compared when the exact maximiser is unique).")
 
-THETA = Fraction(3, 5)          # consensus threshold used for the model comparison (majority-rule: all candidates compatible)
+THETA = Fraction(3, 5)          # majority-rule threshold of the brute-force consensus oracle (all candidates compatible)
+MODEL_THETA = Fraction(1, 4)    # threshold of the model comparison: greedy consensus, the order of the candidates matters
+
+
+def laminar(a, b):
+    return (a & b) == 0 or (a & b) == a or (a & b) == b
+
+
+def greedy_consensus(order, full, rooted):
+    """non-trivial splits a greedy consensus keeps when the candidates are tried in `order`"""
+    acc = []
+    for s0 in order:
+        m = s0 & full
+        if m == full or popcount(m) <= 1:
+            continue        # rooted: a clade of all but one taxon is a real clade and blocks conflicting ones
+        if not rooted:
+            if m & 1:
+                m = (~m) & full
+            if popcount(m) <= 1:
+                continue
+        if m not in acc and all(laminar(m, t) for t in acc):
+            acc.append(m)
+    return sorted(x for x in acc if nontrivial(x, full))
 ERR = {"MixedRootingError": "MixedRooting", "IncompatibleRootingTreeArrayUpdate": "IncRooting",
        "IncompatibleEdgeLengthsTreeArrayUpdate": "IncLens", "IncompatibleNodeAgesTreeArrayUpdate": "IncAges",
        "IncompatibleTreeWeightsTreeArrayUpdate": "IncWeights", "AssertionError": "Assertion"}
@@ -300,12 +326,17 @@ def parse_dump(p):
         return None if n < 0 else [Fraction(p.tok()) for _ in range(n)]
     scores = qs()
     sums = qs()
+    c["mccidx"] = int(p.tok())
     cons = p.lst(p.nat)
     return c, scores, sums, cons
 
 
-def sort_fr(l):
-    return sorted(l)
+def freq_differs(a, b):
+    """frequency tables [[split, repr(float)]]: same splits, values equal to 1e-12 (not bit-exact: the code is free to
+    compute count/norm in any reasonable way)"""
+    if [x[0] for x in a] != [x[0] for x in b]:
+        return True
+    return any(not close(float(x[1]), float(y[1]), 1e-12) for x, y in zip(a, b))
 
 
 def expected_canon(trees, flags):
@@ -434,6 +465,8 @@ def run_queries(ta, exp_trees):
                 res["msum"] = sorted(summary_of(ms))
                 res["cons"] = summary_of(ta.consensus_tree(min_freq=float(THETA)))
                 res["cons50"] = summary_of(ta.consensus_tree())
+                res["conshalf"] = summary_of(ta.consensus_tree(min_freq=0.5))      # ties between conflicting splits possible
+                res["conslow"] = summary_of(ta.consensus_tree(min_freq=0.25))     # greedy: the order of candidates matters
                 res["topo"] = len(ta.topologies())
     except Exception as e:   # noqa
         return res, "%s: %s" % (type(e).__name__, str(e)[:120])
@@ -455,6 +488,7 @@ class Reg(object):
         self.sdflags = list(flags)
         self.trees = []       # list of (spec, record)
         self.tainted = False  # holds data counted under settings other than its own (adoption of foreign settings)
+        self.asserted = False  # an add_tree assert fired on it: the distribution counted a tree the lists do not hold
 
     def off_domain(self):
         return self.tainted or self.flags != self.sdflags
@@ -475,6 +509,8 @@ def merge_must_succeed(dst, src):
     """the statement's 'compatible in rooting and settings' for dst <- src"""
     if not src.trees:
         return True
+    if dst.asserted or src.asserted:
+        return False      # a failed add_tree assert has already adopted a rooting state the lists do not show
     hom, r = homogeneous(dst.trees, src.trees)
     if not hom:
         return False
@@ -495,7 +531,7 @@ def exec_history(ctx, dendropy, case):
     TA = dendropy.TreeArray
     regs, oracle = [], []
     results = []
-    line = ["hist", tu.frac(THETA), str(len(ops))]
+    line = ["hist", tu.frac(MODEL_THETA), str(len(ops))]
     failed = False
     merged_nonempty = 0
     merged_empty = 0
@@ -561,6 +597,7 @@ def exec_history(ctx, dendropy, case):
                             od.flags = list(os_.flags)
                         od.trees = od.trees + os_.trees
                         od.tainted = od.tainted or os_.off_domain()
+                        od.asserted = od.asserted or os_.asserted
                     else:
                         merged_empty += 1
                 elif name == "plus":
@@ -571,13 +608,14 @@ def exec_history(ctx, dendropy, case):
                     decl = r if oa.trees else oa.decl
                     tmp = Reg(decl, oa.flags)
                     tmp.trees = list(oa.trees)
-                    must = homogeneous(oa.trees)[0] and merge_must_succeed(tmp, ob)
+                    must = homogeneous(oa.trees)[0] and not oa.asserted and merge_must_succeed(tmp, ob)
                     c = regs[a] + regs[b]
                     regs.append(c)
                     if ob.trees and not tmp.trees:
                         tmp.flags = list(ob.flags)
                     tmp.trees = tmp.trees + ob.trees
                     tmp.tainted = (bool(oa.trees) and oa.off_domain()) or (bool(ob.trees) and ob.off_domain())
+                    tmp.asserted = oa.asserted or ob.asserted
                     if ob.trees and oa.trees:
                         merged_nonempty += 1
                     if not ob.trees or not oa.trees:
@@ -592,9 +630,12 @@ def exec_history(ctx, dendropy, case):
                 fail("merge-rejected" if name not in ("add", "ins") else "add-rejected",
                      "op %d %s on compatible collections raised %s: %s" % (k, op[:3] if name != "new" else op, type(e).__name__, str(e)[:160]))
         results.append(res)
-        if res != "ok" and res not in CLEAN:
-            # state may be half-updated: the history ends here (the generator never continues after such an error)
-            break
+        if res == "Assertion" and name in ("add", "ins"):
+            # the one rejection after a mutation: add_tree's length assert fires when the distribution has already counted
+            # the tree (the model mirrors that half-update, so the history goes on and the states are still compared)
+            oracle[op[1]].asserted = True
+        elif res != "ok" and res not in CLEAN:
+            break     # unexpected exception: state unknown, the history ends here
     line[2] = str(nops)
     canons = []
     nontrivial_case = merged_nonempty >= 1 or merged_empty >= 1
@@ -606,10 +647,17 @@ def exec_history(ctx, dendropy, case):
             ci = {"error": "%s: %s" % (type(e).__name__, str(e)[:100])}
         qres, qerr = run_queries(ta, o.trees)
         canons.append((ci, qres, qerr))
-        if failed or results[-1:] == ["Assertion"] or any(r.startswith("Internal") for r in results):
+        if failed or any(r.startswith("Internal") for r in results):
             continue
-        if o.off_domain():
-            continue     # array adopted foreign settings: outside 'compatible in settings'
+        if o.off_domain() or o.asserted:
+            # array adopted foreign settings: outside 'compatible in settings'; what must still hold is that the four
+            # per-tree lists stay aligned and hold as many trees as were accepted
+            if "error" not in ci and (len(set(ci["n4"])) != 1 or ci["n4"][0] != len(o.trees) or
+                                      (not o.asserted and ci["sd"]["total"] != len(o.trees))):
+                fail("alignment", "array %d (settings adopted from another collection) must hold %d trees; list lengths %s, "
+                     "total_trees_counted = %s" % (i, len(o.trees), ci["n4"], ci["sd"]["total"]))
+                failed = True
+            continue
         if not homogeneous(o.trees)[0]:
             continue
         # ---- oracle on this array
@@ -641,7 +689,7 @@ def exec_history(ctx, dendropy, case):
                 break
         if failed:
             continue
-        if ci["freq"] != exp["freq"]:
+        if freq_differs(ci["freq"], exp["freq"]):
             fail("freq", "array %d: split frequencies %s, weighted fractions are %s" % (i, ci["freq"], exp["freq"]))
             failed = True
             continue
@@ -698,13 +746,19 @@ def check_queries(fail, i, o, qres, fr, full):
             return True
     # majority-rule consensus: exactly the non-trivial splits with frequency >= theta; support annotation = frequency
     if all(r["leafset"] == full for r in trees):
-        for key, th in (("cons", THETA),):
-            want = sorted(s for s, f in fr.items() if float(f) >= float(th) and nontrivial(s, full))
+        from dendropy.utility import constants
+        default = Fraction(constants.GREATER_THAN_HALF)     # the library's own default threshold (C05 judges its value)
+        for key, th in (("cons", THETA), ("cons50", None)):
+            # above one half all candidates are compatible: exactly the splits reaching the threshold.  At the default
+            # threshold: every split in more than half of the weight, and nothing below the library's default value
+            must = sorted(s for s, f in fr.items() if (f > Fraction(1, 2) if th is None else f >= th) and nontrivial(s, full))
+            may = must if th is not None else sorted(s for s, f in fr.items() if f >= default and nontrivial(s, full))
             got = sorted(s for s in qres[key] if nontrivial(s, full))
-            if got != want:
-                fail("consensus", "array %d: consensus(min_freq=%s) has non-trivial splits %s, those with frequency >= threshold are %s" % (i, th, got, want))
+            if not (set(must) <= set(got) <= set(may)):
+                fail("consensus", "array %d: consensus(min_freq=%s) has non-trivial splits %s; splits with frequency %s are %s" % (
+                    i, "default" if th is None else th, got, "> 1/2" if th is None else ">= threshold", must))
                 return True
-            for s in want:
+            for s in got:
                 sup = qres[key][s][1].get("support")
                 if sup is None or not close(float(sup), float(fr[s])):
                     fail("consensus", "array %d: support of split %d is %r, frequency is %r" % (i, s, sup, float(fr[s])))
@@ -723,10 +777,13 @@ def serial_differs(ctx, dendropy, tns, fail, i, o, qres):
             ser.add_tree(build_tree(dendropy, tns, o.trees[j][0]))
         sres, serr = run_queries(ser, None)
     except Exception as e:   # noqa
-        return False
+        fail("serial-vs-merged", "array %d: adding its %d trees one at a time to a fresh collection raised %s: %s" % (
+            i, len(o.trees), type(e).__name__, str(e)[:120]))
+        return True
     if serr:
-        return False
-    for key in ("cons", "cons50"):
+        fail("serial-vs-merged", "array %d: a query on the one-at-a-time collection over the same trees raised %s" % (i, serr))
+        return True
+    for key in ("cons", "cons50", "conshalf", "conslow"):
         d = summaries_differ(qres[key], sres[key])
         if d:
             fail("serial-vs-merged", "array %d: %s tree differs from the one-at-a-time run over the same trees: %s" % (i, key, d))
@@ -735,6 +792,28 @@ def serial_differs(ctx, dendropy, tns, fail, i, o, qres):
         fail("serial-vs-merged", "array %d: maximum credibility score %r, one-at-a-time run gives %r" % (i, qres["mcc_score"], sres["mcc_score"]))
         return True
     return False
+
+
+def mcc_index_differs(impl_idx, model_idx, scores, tuples=None):
+    """the code takes the first strict maximum of float log-sums, the model of exact products: the indices must agree
+    whenever the exact maximum is attained once and beats the rest by a safe margin"""
+    if not scores:
+        return None if (impl_idx is None and model_idx == -1) else "model index %s" % model_idx
+    best = max(scores)
+    at = [j for j, x in enumerate(scores) if x == best]
+    safe = all(float(x) < float(best) * (1 - 1e-9) for x in scores if x != best)
+    if not safe:
+        return None
+    if model_idx != at[0]:
+        return "model index %s, first exact maximum at %s" % (model_idx, at[0])
+    if len(at) == 1 and impl_idx != at[0]:
+        return "model index %s" % model_idx
+    if tuples is not None and len({tuple(tuples[j][0]) for j in at}) == 1 and impl_idx != at[0]:
+        # the tied trees store the same splits in the same order: their float scores are bit-identical, the first one wins
+        return "model index %s (first of the identical maximisers %s)" % (model_idx, at)
+    if impl_idx not in at:
+        return "exact maximisers %s" % at
+    return None
 
 
 def compare_model(ctx, case, line, results, canons, out):
@@ -750,8 +829,8 @@ def compare_model(ctx, case, line, results, canons, out):
     if mres != results:
         ctx.disagree("hist results", case, results, mres)
         return
-    if results and results[-1] not in CLEAN and results[-1] != "ok":
-        return     # half-updated state on the implementation side is not compared
+    if results and results[-1].startswith("Internal"):
+        return     # unexpected exception: the state on the implementation side is unknown
     nregs = p.nat()
     if nregs != len(canons):
         ctx.disagree("hist registers", case, len(canons), nregs)
@@ -761,10 +840,13 @@ def compare_model(ctx, case, line, results, canons, out):
         if "error" in ci:
             ctx.disagree("hist array %d" % i, case, ci["error"], "model dumps the array")
             return
-        for key in ("rooting", "flags", "n4", "rows", "rowlens", "leafsets", "weights", "sd", "freq"):
+        for key in ("rooting", "flags", "n4", "rows", "rowlens", "leafsets", "weights", "sd"):
             if ci[key] != cm[key]:
                 ctx.disagree("hist array %d %s" % (i, key), case, ci[key], cm[key])
                 return
+        if freq_differs(ci["freq"], cm["freq"]):
+            ctx.disagree("hist array %d freq" % i, case, ci["freq"], cm["freq"])
+            return
         if (scores is None) != (qerr is not None and "AssertionError" in qerr):
             if qerr is None or scores is None:
                 ctx.disagree("hist array %d queries" % i, case, qerr or "queries ok", "scores %s" % ("assert" if scores is None else "ok"))
@@ -778,15 +860,20 @@ def compare_model(ctx, case, line, results, canons, out):
             if len(iss) != len(sums) or any(not close(a, float(b)) for a, b in zip(iss, sums)):
                 ctx.disagree("hist array %d sums" % i, case, iss, [float(b) for b in sums])
                 return
-            if scores and ci["n4"][0] and "cons" in qres:
+            if scores and ci["n4"][0] and "conslow" in qres:
                 full = (1 << case["ntaxa"]) - 1
                 lf = ci["leafsets"]
-                if all(int(x) == full for x in lf):
-                    got = sorted(s for s in qres["cons"] if nontrivial(s, full))
-                    want = sorted(s for s in cons if nontrivial(s, full))
+                if all(int(x) == full for x in lf) and len({ci["sd"]["sawR"], 1 - ci["sd"]["sawU"]}) == 1:
+                    got = sorted(s for s in qres["conslow"] if nontrivial(s, full))
+                    want = greedy_consensus(cons, full, bool(ci["sd"]["sawR"]))
                     if got != want:
-                        ctx.disagree("hist array %d consensus" % i, case, got, want)
+                        ctx.disagree("hist array %d greedy consensus (min_freq 1/4)" % i, case, got, want)
                         return
+            if scores:
+                d = mcc_index_differs(qres["logprod"][1], cm["mccidx"], scores, qres.get("tuples"))
+                if d:
+                    ctx.disagree("hist array %d mcc index" % i, case, qres["logprod"][1], d)
+                    return
 
 
 # ---------------------------------------------------------------------------------------- history generators
@@ -808,6 +895,7 @@ def gen_history(rng, max_taxa=7, max_ops=14):
     mismatch = rng.random() < 0.22
     base = [0 if ages_mode or rng.random() < 0.8 else 1, 0 if ages_mode else 1, 1 if weights_mode or rng.random() < 0.7 else 0]
     subsets = rng.random() < 0.1
+    tie_mode = rng.random() < 0.15      # two topologies per rooting state, repeated: exact frequency ties
     pool = []
 
     reg_root = []
@@ -817,7 +905,7 @@ def gen_history(rng, max_taxa=7, max_ops=14):
         # merges of two non-empty arrays of different rooting (to be rejected) are actually reached
         r = reg_root[d] if rng.random() < 0.85 else rng.choice(rootings)
         same = [x for x in pool if x["rooted"] == r]
-        if same and rng.random() < 0.35:
+        if same and (rng.random() < 0.35 or (tie_mode and len(same) >= 2)):
             return rng.choice(same)       # repeated topologies / identical trees
         bits = bits_all
         if subsets and ntaxa > 3 and rng.random() < 0.5:
@@ -918,34 +1006,55 @@ def flush(ctx, pending):
 
 # ======================================================================================= SumTrees schedules
 class FakeQueue(object):
-    def __init__(self, owner):
+    """stand-in for multiprocessing.Queue.  Roles are recognised by use, not by creation order or attribute names: the queue
+    on which the parent *blocks* (`get()`) is the results queue; the other shared queue holding items at that moment is
+    the work queue"""
+
+    def __init__(self, owner=None):
         self.items = []
         self.owner = owner
-        self.index = len(owner.queues)
-        owner.queues.append(self)
+        if owner is not None:
+            owner.queues.append(self)
 
-    def put(self, x):
+    def put(self, x, *a, **k):
         self.items.append(x)
+
+    def put_nowait(self, x):
+        self.items.append(x)
+
+    def empty(self):
+        return not self.items
+
+    def qsize(self):
+        return len(self.items)
 
     def get_nowait(self):
         if not self.items:
             raise pyqueue.Empty
         return self.items.pop(0)
 
-    def get(self):
-        if self.index == 1 and not self.owner.ran:
-            self.owner.run_workers()
+    def get(self, block=True, timeout=None):
+        if not block:
+            return self.get_nowait()
+        if self.owner is not None and not self.owner.ran:
+            self.owner.run_workers(self)
         if not self.items:
             raise RuntimeError("collation loop would block: fewer results than workers")
         return self.items.pop(0)
 
 
 class FakeLock(object):
-    def acquire(self):
-        pass
+    def acquire(self, *a, **k):
+        return True
 
     def release(self):
         pass
+
+    def __enter__(self):
+        return self
+
+    def __exit__(self, *a):
+        return False
 
 
 class Schedule(object):
@@ -958,26 +1067,29 @@ class Schedule(object):
         self.started = []
         self.ran = False
 
-    def run_workers(self):
+    def run_workers(self, results):
         self.ran = True
-        work, results = self.queues[0], self.queues[1]
-        files = list(work.items)
-        work.items = []
+        shared = [q for q in self.queues if q is not results and q.items]
+        work = shared[0] if shared else None
+        files = list(work.items) if work is not None else []
+        if work is not None:
+            work.items = []
         per = {}
         for i, w in enumerate(self.started):
-            mine = [f for f, a in zip(files, self.assignment) if a == i]
-            q = FakeQueue.__new__(FakeQueue)
-            q.items, q.owner, q.index = mine, self, -1
-            w.work_queue = q
-            r = FakeQueue.__new__(FakeQueue)
-            r.items, r.owner, r.index = [], self, -1
-            w.results_queue = r
+            mine = FakeQueue()
+            mine.items = [f for f, a in zip(files, self.assignment) if a == i]
+            out = FakeQueue()
+            for name, val in list(vars(w).items()):
+                if work is not None and val is work:
+                    setattr(w, name, mine)
+                elif val is results:
+                    setattr(w, name, out)
             w.run()
-            per[i] = r.items
+            per[i] = out.items
         results.items = [x for i in self.arrival for x in per[i]]
 
 
-def run_parallel(dendropy, sumtrees, files, nworkers, assignment, arrival, rooted, tns, use_weights=True):
+def run_parallel(dendropy, sumtrees, files, nworkers, assignment, arrival, rooted, tns, use_weights=True, flags=(0, 1, 1)):
     sched = Schedule(assignment, arrival)
     orig_mp = sumtrees.multiprocessing
     W = sumtrees.TreeAnalysisWorker
@@ -988,7 +1100,7 @@ def run_parallel(dendropy, sumtrees, files, nworkers, assignment, arrival, roote
     W.start = lambda self: sched.started.append(self)
     W.terminate = lambda self: None
     try:
-        tp = sumtrees.TreeProcessor(is_source_trees_rooted=rooted, ignore_edge_lengths=False, ignore_node_ages=True,
+        tp = sumtrees.TreeProcessor(is_source_trees_rooted=rooted, ignore_edge_lengths=bool(flags[0]), ignore_node_ages=bool(flags[1]),
                                     use_tree_weights=use_weights, ultrametricity_precision=0.0001, taxon_label_age_map=None,
                                     num_processes=nworkers, log_frequency=0, messenger=None, debug_mode=True)
         return tp.parallel_analyze_trees(tree_sources=files, schema="newick", taxon_namespace=tns)
@@ -1004,8 +1116,8 @@ def run_parallel(dendropy, sumtrees, files, nworkers, assignment, arrival, roote
                 setattr(W, name, had)
 
 
-def run_serial(dendropy, sumtrees, files, rooted, tns, use_weights=True):
-    tp = sumtrees.TreeProcessor(is_source_trees_rooted=rooted, ignore_edge_lengths=False, ignore_node_ages=True,
+def run_serial(dendropy, sumtrees, files, rooted, tns, use_weights=True, flags=(0, 1, 1)):
+    tp = sumtrees.TreeProcessor(is_source_trees_rooted=rooted, ignore_edge_lengths=bool(flags[0]), ignore_node_ages=bool(flags[1]),
                                 use_tree_weights=use_weights, ultrametricity_precision=0.0001, taxon_label_age_map=None,
                                 num_processes=1, log_frequency=0, messenger=None, debug_mode=True)
     return tp.serial_analyze_trees(files, "newick", taxon_namespace=tns)
@@ -1045,22 +1157,23 @@ def exec_sched(ctx, dendropy, case, sf=None, serial_cache=None):
         labels = ["t%d" % i for i in range(ntaxa)]
         src = case["rooted"]
         eff = effective_rooting(src, case["token"])
-        uw = 1
-        recs = [[record(dict(s, rooted=eff), False) for s in f] for f in case["files"]]
+        flags = list(case.get("flags", [0, 1, 1]))
+        uw = flags[2]
+        # without --weighted-trees the reader does not even store the weights
+        recs = [[record(dict(s, rooted=eff, weight=s["weight"] if uw else None), not flags[1]) for s in f] for f in case["files"]]
         nw = case["nworkers"]
-        line = ["sched", tu.frac(THETA), R(src), "0", "1", str(uw), str(nw)] + [str(x) for x in case["arrival"]]
+        line = ["sched", tu.frac(MODEL_THETA), R(src), str(flags[0]), str(flags[1]), str(uw), str(nw)] + [str(x) for x in case["arrival"]]
         line += [str(len(recs))] + [str(x) for x in case["assignment"]]
         for f in recs:
             line.append(str(len(f)))
             for r in f:
                 line += trec_tokens(r)
-        flags = [0, 1, uw]
         par = ser = None
         perr = serr = None
         try:
             with time_limit(60):
                 par = run_parallel(dendropy, sumtrees, sf.paths, nw, case["assignment"], case["arrival"], src,
-                                   dendropy.TaxonNamespace(labels), bool(uw))
+                                   dendropy.TaxonNamespace(labels), bool(uw), flags)
         except Exception as e:   # noqa
             perr = e
         if serial_cache is not None and "ser" in serial_cache:
@@ -1068,7 +1181,7 @@ def exec_sched(ctx, dendropy, case, sf=None, serial_cache=None):
         else:
             try:
                 with time_limit(60):
-                    ser = run_serial(dendropy, sumtrees, sf.paths, src, dendropy.TaxonNamespace(labels), bool(uw))
+                    ser = run_serial(dendropy, sumtrees, sf.paths, src, dendropy.TaxonNamespace(labels), bool(uw), flags)
             except Exception as e:   # noqa
                 serr = e
             if serial_cache is not None:
@@ -1093,17 +1206,17 @@ def exec_sched(ctx, dendropy, case, sf=None, serial_cache=None):
             elif qperr or qserr:
                 bad = ("query", "query on the %s result raised %s" % ("parallel" if qperr else "serial", qperr or qserr))
             else:
-                for key in ("total", "sumW", "counts", "lens", "sawR", "sawU"):
+                for key in ("total", "sumW", "counts", "lens", "ages", "sawR", "sawU"):
                     if cp["sd"][key] != exp["sd"][key] or cs["sd"][key] != exp["sd"][key]:
                         bad = ("sched-counts", "split distribution field %s: parallel %s, serial %s, the input trees give %s" % (
                             key, cp["sd"][key], cs["sd"][key], exp["sd"][key]))
                         break
-                if bad is None and (cp["freq"] != exp["freq"] or cs["freq"] != cp["freq"]):
+                if bad is None and (freq_differs(cp["freq"], exp["freq"]) or freq_differs(cs["freq"], cp["freq"])):
                     bad = ("sched-counts", "split frequencies: parallel %s, serial %s, expected %s" % (cp["freq"], cs["freq"], exp["freq"]))
                 if bad is None and sorted(map(str, cp["rows"])) != sorted(map(str, exp["rows"])):
                     bad = ("sched-counts", "the master array does not hold the input trees (as a multiset)")
                 if bad is None and flat:
-                    for key in ("cons", "cons50"):
+                    for key in ("cons", "cons50", "conshalf", "conslow"):
                         d = summaries_differ(qp[key], qs[key])
                         if d:
                             bad = ("sched-summary", "%s tree of the parallel run differs from the serial run: %s" % (key, d))
@@ -1156,10 +1269,13 @@ def compare_sched(ctx, case, results, canons, out):
         cm = got[k][1]
         if cm is None:
             continue
-        for key in ("rooting", "n4", "rows", "leafsets", "weights", "sd", "freq"):
+        for key in ("rooting", "n4", "rows", "leafsets", "weights", "sd"):
             if ci[key] != cm[key]:
                 ctx.disagree("sched %s %s" % ("parallel" if k == 0 else "serial", key), case, ci[key], cm[key])
                 return
+        if freq_differs(ci["freq"], cm["freq"]):
+            ctx.disagree("sched %s freq" % ("parallel" if k == 0 else "serial"), case, ci["freq"], cm["freq"])
+            return
         if qerr is None and got[k][2] is not None:
             isc, _ = qres["logprod"]
             if len(isc) != len(got[k][2]) or any(not close(a, math.log(b)) for a, b in zip(isc, got[k][2])):
@@ -1170,18 +1286,21 @@ def compare_sched(ctx, case, results, canons, out):
 def gen_sched_files(rng, nfiles, max_taxa=6, max_trees=3, allow_empty_file=False):
     ntaxa = rng.randint(4, max_taxa)
     weights = rng.random() < 0.4
+    ages = rng.random() < 0.2
+    ties = rng.random() < 0.3          # few distinct topologies, each repeated: exact frequency ties between conflicting splits
+    flags = [0 if ages or rng.random() < 0.75 else 1, 0 if ages else 1, 1 if weights or rng.random() < 0.6 else 0]
     files = []
     pool = []
     for _ in range(nfiles):
         k = rng.randint(0 if (allow_empty_file and rng.random() < 0.15) else 1, max_trees)
         f = []
         for _ in range(k):
-            if pool and rng.random() < 0.4:
+            if pool and (rng.random() < 0.4 or (ties and len(pool) >= 2)):
                 f.append(rng.choice(pool))
                 continue
-            w = Fraction(rng.randint(1, 6), rng.choice([1, 2, 4])) if weights and rng.random() < 0.7 else None
-            s = gen_spec(rng, list(range(ntaxa)), None, none_rate=rng.choice([0.0, 0.3]), weight=w,
-                         p_poly=rng.choice([0.0, 0.3]), basal2=rng.random() < 0.5)
+            w = Fraction(rng.randint(1, 6), rng.choice([1, 2, 4])) if weights and not ties and rng.random() < 0.7 else None
+            s = gen_spec(rng, list(range(ntaxa)), None, ultrametric=ages, none_rate=0.0 if ages else rng.choice([0.0, 0.3]), weight=w,
+                         p_poly=0.0 if ties else rng.choice([0.0, 0.3]), basal2=rng.random() < 0.5)
             pool.append(s)
             f.append(s)
         files.append(f)
@@ -1196,7 +1315,7 @@ def gen_sched_files(rng, nfiles, max_taxa=6, max_trees=3, allow_empty_file=False
         rooted, token = True, rng.choice([None, "R", "U"])
     else:
         rooted, token = False, rng.choice([None, "R", "U"])
-    return {"mode": "sched", "ntaxa": ntaxa, "files": files, "rooted": rooted, "token": token}
+    return {"mode": "sched", "ntaxa": ntaxa, "files": files, "rooted": rooted, "token": token, "flags": flags}
 
 
 # ======================================================================================= real multi-process CLI
@@ -1327,6 +1446,12 @@ def gen_partition_case(rng, ntrees=None, nparts=None):
                       p_poly=rng.choice([0.0, 0.3]), basal2=rng.random() < 0.4) for _ in range(ntrees)]
     if ntrees >= 2 and rng.random() < 0.5:
         specs[-1] = specs[0]
+    if ntrees >= 2 and rng.random() < 0.35:
+        # exact frequency ties between conflicting splits: two binary topologies, each in half of an even-sized sample
+        a, b = [gen_spec(rng, list(range(ntaxa)), r, ultrametric=ages, none_rate=0.0, p_poly=0.0, basal2=True) for _ in range(2)]
+        ntrees = 2 * rng.randint(1, 3)
+        specs = [a, b] * (ntrees // 2)
+        rng.shuffle(specs)
     parts = [[] for _ in range(nparts)]
     for j in range(ntrees):
         parts[rng.randrange(nparts)].append(j)
